@@ -985,12 +985,17 @@ fn accessor_audit(p: &WirePdu, invalid_body: bool) -> Result<(), Violation> {
                         eq!("key_identifier", x.key_identifier(), *ski);
                         eq!("asn", x.asn().into_u32(), *asn);
                         eq!("key_info", x.key_info().as_slice(), &spki[..]);
+                        eq!("key_info.into_bytes", &x.key_info().clone().into_bytes()[..], &spki[..]);
+                        eq!("into_key_info", x.clone().into_key_info().as_slice(), &spki[..]);
                         eq!("size", x.size() as usize, enc.len());
                     }
                     (pdu::Payload::Aspa(x), WirePdu::Aspa { flags, customer, providers, .. }) => {
                         eq!("flags", x.flags(), *flags);
                         eq!("customer", x.customer().into_u32(), *customer);
                         eq!("providers", x.providers().iter().map(|a| a.into_u32()).collect::<Vec<_>>(), *providers);
+                        eq!("providers.len", x.providers().len(), providers.len() * 4);
+                        eq!("providers.is_empty", x.providers().is_empty(), providers.is_empty());
+                        eq!("into_providers", x.clone().into_providers().iter().map(|a| a.into_u32()).collect::<Vec<_>>(), *providers);
                         eq!("size", x.size() as usize, enc.len());
                         if providers.len() <= 65535 {
                             eq!("asn_count", x.providers().asn_count() as usize, providers.len());
@@ -998,6 +1003,14 @@ fn accessor_audit(p: &WirePdu, invalid_body: bool) -> Result<(), Violation> {
                     }
                     _ => return bad("variant", format!("{:?}", pl), wire::describe(p)),
                 }
+                // the partial slice (fixed part) is what error reports quote
+                let fixed = match p {
+                    WirePdu::Ipv4 { .. } => 20,
+                    WirePdu::Ipv6 { .. } => 32,
+                    WirePdu::RouterKey { .. } => 32,
+                    _ => 12,
+                };
+                eq!("as_partial_slice", pl.as_partial_slice(), &enc[..fixed.min(enc.len())]);
                 eq!("payload.flags", pl.flags(), match p {
                     WirePdu::Ipv4 { flags, .. } | WirePdu::Ipv6 { flags, .. } | WirePdu::RouterKey { flags, .. } | WirePdu::Aspa { flags, .. } => *flags,
                     _ => 0,
